@@ -8,6 +8,7 @@ A *program set* maps a function name to a list of instructions:
   ('drain', fut)           next() until every slot was seen
   ('cancel', fut)          get_runtime().cancel(fut)
   ('log',)                 a logging call (travels to the client as a LOG message)
+  ('sleep',)               give the processor away once (a scheduling point under the SimKernel, a short sleep on real processes)
   ('ret',)                 return own task id
   ('raise',)               raise RuntimeError('boom-<id>')
 Everything runs in ONE process (SimKernel), so the event log and the id tables are plain module globals.
@@ -178,6 +179,14 @@ async def body(fn, path):
             rt.cancel(env[ins[1]])
         elif op == 'log':
             _log.warning('log-from-%d', me)
+        elif op == 'sleep':
+            if TRACE_DIR:
+                import time
+                time.sleep(0.002)
+            else:
+                from harness import sim
+                if sim.CUR is not None:
+                    sim.CUR.k.yield_(('sleep', 0))
         elif op == 'ret':
             ev('TaskEnd', t=me)
             return me
